@@ -120,6 +120,9 @@ def oracle_c15(ctx, budget_s):
             continue
         case = O.Case(ctx, desc)
         if not case.build():
+            OD.corpus_rejected(ctx, case)
+            if ctx.failures:
+                return
             continue
         case.regs = OD.regions(desc, case.geo)
         ctx.count("C15.corpus")
@@ -311,11 +314,22 @@ def oracle_c24(ctx, budget_s):
                      "REPEAT-mode MultiCrossBlock), CrossBlock vs MultiCrossBlock(..., [crossing], mode=WEIGHT)")
     g = D.Gen(rng, max_trials=5)
     t_end = ctx.elapsed() + budget_s
+    # first: leaves with an *incomplete* crossing (require_complete_crossing=False and an excluded level), under every law
+    col, siz = O._sf(0, ["r", "g"]), O._sf(1, ["big", "small"])
+    fixed = []
+    for cs in ([{"k": "Exclude", "f": 0, "l": 0}, {"k": "AtMostKInARow", "n": 1, "f": 1, "l": 1}], [{"k": "Exclude", "f": 1, "l": 1}]):
+        lf = {"factors": [col, siz], "block": {"k": "cross", "design": [0, 1], "crossing": [0, 1], "rcc": False, "cs": cs}}
+        for lw in ("repeat-nil", "repeat-merge", "merge-single", "merge-default", "cross-multicross"):
+            fixed.append((json.loads(json.dumps(lf)), lw))
     while ctx.elapsed() < t_end:
-        leaf = O.gen_leaf(g, small=True, want_derived=rng.choice([0, 0, 1]), kinds=["AtMostKInARow", "Pin", "ExactlyK", "MinimumTrials"])
+        if fixed:
+            leaf, law = fixed.pop(0)
+            ctx.count("C24.incomplete-crossing")
+        else:
+            leaf = O.gen_leaf(g, small=True, want_derived=rng.choice([0, 0, 1]), kinds=["AtMostKInARow", "Pin", "ExactlyK", "MinimumTrials"])
+            law = rng.choice(["repeat-merge", "repeat-nil", "merge-single", "cross-multicross", "multicross-merge", "merge-default"])
         b = leaf["block"]
         fs = OD._fmap(leaf)
-        law = rng.choice(["repeat-merge", "repeat-nil", "merge-single", "cross-multicross", "multicross-merge", "merge-default"])
         F = leaf["factors"]
         if law == "repeat-merge":
             cs = [{"k": "MinimumTrials", "n": O.leaf_trials(leaf) * rng.choice([1, 2])}] if not any(
@@ -452,6 +466,9 @@ def oracle_c25(ctx, budget_s):
             continue
         case = O.Case(ctx, desc)
         if not case.build():
+            OD.corpus_rejected(ctx, case)
+            if ctx.failures:
+                return
             continue
         case.regs = OD.regions(desc, case.geo)
         ctx.count("C25.corpus")
@@ -552,6 +569,9 @@ def oracle_c26(ctx, budget_s):
             continue
         case = O.Case(ctx, desc)
         if not case.build():
+            OD.corpus_rejected(ctx, case)
+            if ctx.failures:
+                return
             continue
         case.regs = OD.regions(desc, case.geo)
         ctx.count("C26.corpus")
@@ -1049,6 +1069,22 @@ def oracle_c18_blocks(ctx, budget_s):
             b = {"k": "nest", "outer": outer, "inner": in_p, "cs": [], "align": None}
             order = {5: [a, b], 6: [b, a], 7: [a, {"k": "merge", "bs": [outer, in_p], "cs": [], "mode": "repeat", "align": None}]}[it]
             ctx.count("C18.block-histories.weights")
+        elif it in (8, 9, 10):
+            # a Nest that is given constraints of its own, then its inner (or outer) block used again elsewhere
+            o = O._sf(0, ["o1", "o2"])
+            i1 = O._sf(10, ["i1", "i2"])
+            factors = [o, i1]
+            outer = {"k": "cross", "design": [0], "crossing": [0], "rcc": True, "cs": [], "obj": "outer"}
+            inner = {"k": "cross", "design": [10], "crossing": [10], "rcc": True, "cs": [], "obj": "inner"}
+            ocs = []
+            ncs = {8: [{"k": "AtMostKInARow", "n": 1, "f": 10, "l": 0}], 9: [{"k": "Pin", "idx": 0, "f": 10, "l": 1}],
+                   10: [{"k": "ExactlyK", "n": 1, "f": 0, "l": 0}]}[it]
+            a = {"k": "nest", "outer": outer, "inner": inner, "cs": ncs, "align": None}
+            later = {8: {"k": "repeat", "b": inner, "cs": [{"k": "MinimumTrials", "n": 4}]},
+                     9: {"k": "merge", "bs": [inner], "cs": [], "mode": "repeat", "align": None},
+                     10: {"k": "repeat", "b": outer, "cs": [{"k": "MinimumTrials", "n": 4}]}}[it]
+            order = [a, later, inner if it != 10 else outer]
+            ctx.count("C18.block-histories.nest-constraints")
         built = D.Built()
         desc0 = {"factors": factors}
         for f in factors:
@@ -1168,6 +1204,9 @@ def _with_continuous(desc, kind):
         extra.append(sp.ContinuousFactor("t1", distribution=sp.CustomDistribution(lambda: stdrandom.random())))
     if kind >= 2:
         extra.append(sp.ContinuousFactor("t2", distribution=sp.UniformDistribution(0, 1)))
+        # the running total of t1 within one sequence (the documented `cumulative=True`): its state lives in the
+        # distribution object, which every call on the block shares
+        extra.append(sp.ContinuousFactor("t3", distribution=sp.CustomDistribution(lambda x: x, [extra[0]], cumulative=True)))
     with D.contextlib.redirect_stdout(D.io.StringIO()):
         blk = sp.CrossBlock(design + extra, [built.factors[i] for i in b["crossing"]], cs, b["rcc"])
     return blk, [e.name for e in extra]
@@ -1252,6 +1291,18 @@ def oracle_c19(ctx, budget_s):
                             elif cols != first_cols:
                                 report(ctx, "history", case, "after %s a synthesized experiment has columns %s, the first call gave %s" % (hist, cols, first_cols), {"history": hist, "continuous": ncont})
                                 broke = True
+                            if "t3" in cnames:
+                                for e in exps:
+                                    run = 0.0
+                                    for i, x in enumerate(e["t1"]):
+                                        run += x
+                                        if abs(e["t3"][i] - run) > 1e-9 * max(1.0, abs(run)):
+                                            report(ctx, "history", case, "after %s: the cumulative factor at trial %d is %r, the running total "
+                                                   "of its argument in this sequence is %r" % (hist, i, e["t3"][i], run), {"history": hist, "continuous": ncont})
+                                            broke = True
+                                            break
+                                    if broke:
+                                        break
                             disc = [{k: v for k, v in e.items() if k not in cnames} for e in exps]
                             seqs = exps_to_seqs(ctx, case, disc, strat)
                             for s, v in zip(seqs, O.lean_valid(ctx, desc, seqs)):
@@ -1328,7 +1379,12 @@ def oracle_c22(ctx, budget_s):
         def f2(a, x):
             log2.append((a, x))
             return x + 1.0
-        c2 = sp.ContinuousFactor("c2", distribution=sp.CustomDistribution(f2, [dep, c1]))
+        # half of the time with the documented keyword spelled out with its default value
+        c22_it = ctx.counters.get("C22.iterations", 0)
+        ctx.count("C22.iterations")
+        explicit_kw = (c22_it % 2 == 0) if c22_it < 6 else rng.random() < 0.5
+        c2 = sp.ContinuousFactor("c2", distribution=(sp.CustomDistribution(f2, [dep, c1], cumulative=False) if explicit_kw
+                                                     else sp.CustomDistribution(f2, [dep, c1])))
         from sweetpea._internal.primitive import ContinuousFactorWindow
         win = ContinuousFactorWindow([c1], width, stride, start)
         def f3(wv):
@@ -1345,6 +1401,8 @@ def oracle_c22(ctx, budget_s):
         cc2 = ContinuousConstraint([c2], lambda y: y <= hi)
         cc3 = ContinuousConstraint([c1, c2], lambda x, y: y - x == 1.0)
         ccs = rng.choice([[cc], [cc, cc2], [cc2, cc], [cc3, cc2, cc], [cc2, cc3, cc]])
+        if c22_it < 6:
+            ccs = [cc]          # the first designs carry one easy constraint, so that a slow resampling loop cannot hide them
         try:
             with D.contextlib.redirect_stdout(D.io.StringIO()):
                 blk = sp.CrossBlock(design + [c1, c2, c3, c4], [built.factors[i] for i in b["crossing"]],
